@@ -56,6 +56,11 @@ static int s_prim_warning(void) { libast_print_warning("careful-%d\n", bump()); 
 static int s_prim_error(void) { libast_print_error("broken-%d\n", bump()); flow = 1; return 1; }
 static int s_prim_fatal(void) { libast_fatal_error("dead-%d\n", bump()); flow = 1; return 1; }
 
+/* messages without any conversion (a formatted-output shortcut for them must obey the same gates) */
+static int s_d_plain(void) { D_OPTIONS(("plain-D_OPTIONS\n")); flow = 1; return 1; }
+static int s_dprintf3_plain(void) { DPRINTF3(("plain-DPRINTF3\n")); flow = 1; return 1; }
+static int s_prim_dprintf_plain(void) { int n = libast_dprintf("plain-message\n"); flow = 1; return n; }
+
 static int (*const stmts[])(void) = {
     s_d_options, s_d_obj, s_d_conf, s_d_mem, s_d_strings, s_d_parse, s_d_never,                      /* 0..6 */
     s_if_options, s_if_obj, s_if_conf, s_if_mem, s_if_strings, s_if_parse,                           /* 7..12 */
@@ -63,7 +68,8 @@ static int (*const stmts[])(void) = {
     s_dprintf,                                                                                       /* 22 */
     s_assert_true, s_assert_false, s_assert_rval_true, s_assert_rval_false, s_notreached_rval,        /* 23..27 */
     s_require_true, s_require_false, s_require_rval_true, s_require_rval_false,                      /* 28..31 */
-    s_prim_dprintf, s_prim_warning, s_prim_error, s_prim_fatal                                       /* 32..35 */
+    s_prim_dprintf, s_prim_warning, s_prim_error, s_prim_fatal,                                      /* 32..35 */
+    s_d_plain, s_dprintf3_plain, s_prim_dprintf_plain                                                /* 36..38 */
 };
 #define NSTMT ((int) (sizeof(stmts) / sizeof(stmts[0])))
 
